@@ -12,6 +12,15 @@
 (*                then every sequence of <= D                              *)
 (*                (pattern 1) or <= D2 (other patterns) operations over    *)
 (*                ALL positions follows.                                   *)
+(* Family "tags": the builder is first filled with nt tags A, B, C(, D)    *)
+(*                (every nt in NTs) and n0 files, tag j holding the files  *)
+(*                i with i mod nt = j-1; then every sequence of <= D       *)
+(*                operations that name ANY tag follows: remove_tag of an   *)
+(*                early, middle or late tag, then associate / dissociate / *)
+(*                remove_tag / re-add by name.  (A builder that keeps a    *)
+(*                name -> index table must renumber it whatever the        *)
+(*                position of the removed tag.)  "sizetags" is the same    *)
+(*                prefill on the size builder (tag_file by tag index).     *)
 (* Family "size": the size-manifest builder (add_entry / add_tag /         *)
 (*                tag_file on positions that may be filled later).         *)
 (*                                                                         *)
@@ -24,7 +33,8 @@
 (***************************************************************************)
 EXTENDS Manifest, TLC, Json
 
-CONSTANTS Family,    \* "seq" | "edge" | "size"
+CONSTANTS Family,    \* "seq" | "edge" | "tags" | "sizetags" | "size"
+          NTs,       \* set of prefill tag counts 3..4 (tags, sizetags)
           D, D2,     \* program length after the prefill
           N0,        \* set of prefill file counts (edge)
           Pats,      \* set of membership patterns 1..5 (edge)
@@ -36,7 +46,7 @@ CONSTANTS Family,    \* "seq" | "edge" | "size"
 VARIABLES hist, k, done, bad,
           bmI, bmD   \* code-shaped byte vectors per tag: install-shaped (in family "size": size-shaped) / download-shaped
 
-Positional == Family = "size"
+Positional == Family \in {"size", "sizetags"}
 
 \* deterministic attributes of the file with a given id: sizes walk through the 40-bit
 \* corner cases, priorities through the signed byte range and the category borders
@@ -65,6 +75,13 @@ PreOps(n, p, ord) ==
                  [op |-> "assoc_set", t |-> "B", files |-> PatSeq(n, p)]>>
   IN IF ord = "tf" THEN tags \o files \o assoc ELSE files \o tags \o assoc
 
+TagSeq == <<"A", "B", "C", "D">>
+PreTags(n, nt, ord) ==
+  LET files == <<[op |-> "add_files", files |-> [j \in 1..n |-> <<SzOfId(j - 1)[1], SzOfId(j - 1)[2], PrOfId(j - 1)>>]]>>
+      tags  == [j \in 1..nt |-> OpAddTag(TagSeq[j])]
+      assoc == [j \in 1..nt |-> [op |-> "assoc_set", t |-> TagSeq[j], files |-> SelectSeq(IdxSeq(n), LAMBDA i : i % nt = j - 1)]]
+  IN IF ord = "tf" THEN tags \o files \o assoc ELSE files \o tags \o assoc
+
 RECURSIVE Fold(_, _, _)
 Fold(mm, ops, j) == IF j > Len(ops) THEN mm ELSE Fold(ApplyOp(mm, Positional, ops[j]).st, ops, j + 1)
 
@@ -78,7 +95,7 @@ Prim(ops, j) ==
        ELSE IF e.op = "assoc_set"
        THEN [x \in 1..Len(e.files) |-> [op |-> "assoc", i |-> e.files[x], t |-> e.t]] \o Prim(ops, j + 1)
        ELSE <<e>> \o Prim(ops, j + 1)
-ShapeI == IF Family = "size" THEN "size" ELSE "install"
+ShapeI == IF Positional THEN "size" ELSE "install"
 RECURSIVE FoldImpl(_, _, _, _, _)
 FoldImpl(bm, shape, mm, ops, j) ==
   IF j > Len(ops) THEN bm
@@ -95,6 +112,13 @@ MCInit ==
             /\ bmI = FoldImpl(<<>>, "install", M0, Prim(PreOps(n, p, ord), 1), 1)
             /\ bmD = FoldImpl(<<>>, "download", M0, Prim(PreOps(n, p, ord), 1), 1)
             /\ lim = IF p = 1 THEN D ELSE D2
+     ELSE IF Family \in {"tags", "sizetags"}
+     THEN \E n \in N0, nt \in NTs, ord \in Orders :
+            /\ hist = PreTags(n, nt, ord)
+            /\ m = Fold(M0, PreTags(n, nt, ord), 1)
+            /\ bmI = FoldImpl(<<>>, ShapeI, M0, Prim(PreTags(n, nt, ord), 1), 1)
+            /\ bmD = FoldImpl(<<>>, "download", M0, Prim(PreTags(n, nt, ord), 1), 1)
+            /\ lim = D
      ELSE hist = <<>> /\ m = M0 /\ lim = D /\ bmI = <<>> /\ bmD = <<>>
 
 N == NFiles(m)
@@ -117,7 +141,19 @@ OpsSize ==
   {OpAddFile}
   \cup {OpAddTag(t) : t \in Universe \ TagNames(m)}
   \cup {[op |-> "assoc", i |-> i, t |-> t] : i \in 0..(N + 1), t \in TagNames(m)}
-Ops == CASE Family = "seq" -> OpsSeq [] Family = "edge" -> OpsEdge [] OTHER -> OpsSize
+\* every tag that exists or existed is addressed by name; a removed name may be added again
+Named == {TagSeq[j] : j \in 1..4} \cap ({hist[j].t : j \in {x \in 1..Len(hist) : hist[x].op = "add_tag"}})
+OpsTags ==
+  {OpAddFile, [op |-> "reopen"]}
+  \cup {OpAddTag(t) : t \in Named \ TagNames(m)}
+  \cup {[op |-> "remove_tag", t |-> t] : t \in TagNames(m)}
+  \cup {[op |-> "assoc", i |-> i, t |-> t] : i \in 0..(N - 1), t \in TagNames(m)}
+  \cup {[op |-> "dissoc", i |-> i, t |-> t] : i \in 0..(N - 1), t \in TagNames(m)}
+  \cup {[op |-> "remove_file", i |-> i] : i \in 0..(N - 1)}
+OpsSizeTags ==
+  {OpAddFile} \cup {[op |-> "assoc", i |-> i, t |-> t] : i \in 0..N, t \in TagNames(m)}
+Ops == CASE Family = "seq" -> OpsSeq [] Family = "edge" -> OpsEdge [] Family = "tags" -> OpsTags
+         [] Family = "sizetags" -> OpsSizeTags [] OTHER -> OpsSize
 
 MCNext ==
   /\ ~done
